@@ -195,8 +195,13 @@ pub fn history(o: &Opts) -> i32 {
     for (hi, h) in read_ndjson(o.req("cases")).iter().enumerate() {
         let n = h["n"].as_u64().unwrap() as usize;
         let port = free_port();
-        let addr: SocketAddr = format!("127.0.0.1:{}", port).parse().unwrap();
-        let args = vec![format!("--port={}", port), format!("--thread-count={}", n)];
+        // the address family is a dimension, too: "ip6" histories run against a server bound to the IPv6 loopback
+        let ip6 = h["ip6"].as_bool().unwrap_or(false);
+        let addr: SocketAddr = (if ip6 { format!("[::1]:{}", port) } else { format!("127.0.0.1:{}", port) }).parse().unwrap();
+        let mut args = vec![format!("--port={}", port), format!("--thread-count={}", n)];
+        if ip6 {
+            args.push("--ip=::1".to_string());
+        }
         let mut srv = match Srv::start(&bin, &root, &[], &args, &[addr], None, &format!("h{}", hi)) {
             Ok(s) => s,
             Err(e) => {
@@ -356,6 +361,11 @@ fn conc_requests() -> Vec<(String, Vec<u8>)> {
         ("mass_js".into(), g("/m/f00002.js")),
         ("mass_html".into(), g("/m/f00003.html")),
         ("mass_late".into(), g("/m/f01039.json")),
+        ("link_file".into(), g("/lnk.txt")),
+        ("link_dir_index".into(), g("/ldocs/")),
+        ("link_dir_file".into(), g("/ldocs/deep/x.txt")),
+        ("link_up".into(), g("/docs/up.bin")),
+        ("link_range".into(), b"GET /docs/up.bin HTTP/1.1\r\nHost: localhost\r\nRange: bytes=5-9\r\n\r\n".to_vec()),
     ]
 }
 
@@ -393,6 +403,10 @@ fn conc_site(root: &Path) {
     let pat = |key: u64, len: u64| -> Vec<u8> { (0..len).map(|i| ((key + 131 * i + i / 251) % 256) as u8).collect() };
     std::fs::write(root.join("big.bin"), pat(11, 300_000)).unwrap();
     std::fs::write(root.join("big2.bin"), pat(13, 120_000)).unwrap();
+    // links (a server that resolves them through process-wide state, e.g. the working directory, disturbs its neighbours)
+    std::os::unix::fs::symlink("a.txt", root.join("lnk.txt")).ok();
+    std::os::unix::fs::symlink("docs", root.join("ldocs")).ok();
+    std::os::unix::fs::symlink("../big2.bin", root.join("docs").join("up.bin")).ok();
     // a directory with thousands of small files of rotating types: whatever the server keeps per file name (a cache, a memo,
     // a table) reaches its capacity and starts recycling entries
     let m = root.join("m");
@@ -573,7 +587,9 @@ fn syscall_event(line: &str) -> Option<Value> {
             break;
         }
     }
-    let benign = path.starts_with("/dev/") || path.starts_with("/proc/") || path.starts_with("/sys/");
+    // device nodes and kernel interfaces are not files the server could "modify"; /dev/shm and /dev/mqueue ARE storage
+    let benign = ((path.starts_with("/dev/") && !path.starts_with("/dev/shm") && !path.starts_with("/dev/mqueue"))
+        || path.starts_with("/proc/") || path.starts_with("/sys/"));
     Some(json!({"ev":"Syscall","call":call,"path":path,"flags":flags,"benign":benign}))
 }
 
@@ -652,6 +668,7 @@ pub fn fs(o: &Opts) -> i32 {
     for (name, content, announce_size) in [
         ("upload.bin", "uploaded bytes", 14usize), ("notes.txt", "x", 1), ("a.txt", "replaced!", 9), ("docs/new.html", "<p>new</p>", 10),
         ("report.pdf", "0123456789abcdef", 16), ("mismatch.bin", "short", 99), ("empty.bin", "", 0),
+        ("big-announced.bin", "tiny", 70000), ("huge-announced.iso", "tiny", 5000000000),
     ] {
         let init = format!("POST /file-upload/initiate?name={}&lastModified=1700000000000&size={} HTTP/1.1\r\nHost: localhost\r\n\r\n", name, announce_size);
         let r = exchange(addr, init.as_bytes(), t);
